@@ -150,6 +150,31 @@ def gen_inputs(rng: random.Random, g: dict, *, p_bind: float = 0.3, p_omit: floa
     return {"provide": provide, "bind": bind, "omit": omit}
 
 
+FALSY_VALUES = [0, False, "", [], None]
+
+
+def node_out_value(nd: dict, j: int, args: dict) -> Any:
+    """Value of output j of a generated function node (must agree with hgsim/rt.py:Runtime._value)."""
+    from .util import canon
+
+    if nd.get("beh") == "const":
+        v = nd["beh_value"]
+        return list(v) if isinstance(v, list) else v
+    basis = [(k, canon(v)) for k, v in sorted(args.items())]
+    return mix(nd.get("fid", nd["name"]), j, basis)
+
+
+def add_falsy_consts(rng: random.Random, g: dict, p_node: float = 0.1) -> int:
+    """Some function nodes return legal but falsy constants (0, False, "", [], None)."""
+    n = 0
+    for nd in g["nodes"]:
+        if nd["kind"] == "fn" and nd.get("outs") and not nd.get("beh") and not nd.get("gen") and rng.random() < p_node:
+            nd["beh"] = "const"
+            nd["beh_value"] = rng.choice(FALSY_VALUES)
+            n += 1
+    return n
+
+
 def eval_dag(g: dict, provided: dict, bound: dict) -> dict[str, Any]:
     """Reference evaluator: dependency order, upstream > run-time > bound > default.
 
@@ -177,12 +202,8 @@ def eval_dag(g: dict, provided: dict, bound: dict) -> dict[str, Any]:
             args_of[nd["name"]] = None
             continue
         args_of[nd["name"]] = a
-        tag = nd.get("fid", nd["name"])
-        from .util import canon
-
-        basis = [(k, canon(v)) for k, v in sorted(a.items())]
         for j, o in enumerate(nd.get("outs", [])):
-            vals[o] = mix(tag, j, basis)
+            vals[o] = node_out_value(nd, j, a)
     return {"values": vals, "args": args_of}
 
 
